@@ -192,7 +192,9 @@ PLANS["C03"] = {
             "every step the full rendering (machine state, bookkeeping, dictionary, code, reverse log, bit-strings bit by bit; canvas in "
             "mode d2) of every copy and snapshot that was not operated on must be unchanged; at the end the operations each original "
             "executed after a clone point are replayed on the snapshot taken there (first on a clone of it with all copies alive, then, "
-            "after all copies are dropped, on the snapshot itself) and every observation and the final state must be identical. Mode "
+            "after all copies are dropped, on the snapshot itself) and every observation and the final state must be identical; half of the first-round replays are "
+            "shadowed by a further clone of the snapshot that runs the same sources with the names of words and variables rotated and looks "
+            "up, right before every replayed source, the name that source starts with. Mode "
             "capi drives xeh_open/xeh_snapshot/xeh_push/xeh_pop/xeh_close. distinct = distinct histories with >= 1 clone point and >= 8 steps",
     "assumptions": ["sources exclude random, random-bits, read-all, write-all, exec-piped, include/require, as the statement does",
                     "mode d2 loads the canvas plugin the REPL loads; its shared host object is a known finding (see known_findings.json) "
@@ -201,7 +203,8 @@ PLANS["C03"] = {
                 need("ops_on_copy_with_shared_bitstr_buffer", 50000), need("final_states_compared", 10000),
                 need("stmt:resolve-late", 1000), need("stmt:stack-only-slice-then-mutate", 1000), need("stmt:mutate-top-of-stack", 1000),
                 need("op:step", 10000), need("capi_snapshots", 1000), need("copies_dropped", 5000),
-                need("stmt:refused-nested-conversion", 1000), need("stmt:nested-conversion", 1000)],
+                need("stmt:refused-nested-conversion", 1000), need("stmt:nested-conversion", 1000),
+                need("replays_shadowed_by_a_diverging_clone", 3000)],
 }
 
 PLANS["C14"] = {
